@@ -469,6 +469,26 @@ def w_groups(ctx, rng, i):
             ctx.fail("group_with_an_unlabelled_point_accepted", cls="LabelledPointUndirectedGraph", mech=how + ":skip_checks")
         except ValueError:
             pass
+    # the same label names on another shape of the same size, with other members (one scheme, several annotators): every group
+    # carries what *it* was given - through each constructor
+    n2 = g.n_points
+    for how in ("indices_mapping", "constructor"):
+        for rep in range(2):
+            masks2 = gen.label_masks(rng, n2, k)
+            masks2 = OrderedDict(zip(names, masks2.values()))
+            pts2 = gen.points(rng, n2, g.n_dims)
+            A2 = gen.adjacency(n2, gen.random_undirected_edges(rng, n2), True)
+            if how == "indices_mapping":
+                g2_ = ms.LabelledPointUndirectedGraph.init_from_indices_mapping(pts2, np.asarray(A2.todense()), OrderedDict((l, np.nonzero(m)[0]) for l, m in masks2.items()))
+            else:
+                g2_ = ms.LabelledPointUndirectedGraph(pts2, A2, OrderedDict((l, m.copy()) for l, m in masks2.items()))
+            ctx.tap("same_scheme_other_members", "calls"); ctx.tap("same_scheme_other_members", "checked")
+            got2 = g2_._labels_to_masks
+            if list(got2.keys()) != list(masks2.keys()) or any(not np.array_equal(got2[l], masks2[l]) for l in masks2):
+                ctx.fail("constructed_group_does_not_carry_the_labels_it_was_given", cls="LabelledPointUndirectedGraph", mech=how + ":same_names_as_an_earlier_group")
+            else:
+                for l in names[:2]:
+                    g2_.get_label(l)
     ctx.count_case(("group", k, g.n_points // 8, dropped), nontrivial=dropped, sample={"n_points": int(g.n_points), "labels": names} if i < 3 else None)
 
 
@@ -495,7 +515,7 @@ def w_labellers(ctx, rng, i):
         ctx.see("n_labellers_found", len(Ls))
     name, f, N = Ls[i % len(Ls)]
     OTHER_SIZES = sorted(set(n_ for _, _, n_ in Ls) - {N})        # a shape meant for another labeller is of the wrong size too
-    kind = ["ndarray", "PointCloud", "Labelled"][(i // len(Ls)) % 3]
+    kind = ["ndarray", "PointCloud", "Labelled", "TriMesh", "PointTree", "PointUndirectedGraph"][(i // len(Ls)) % 6]
     d = 3 if ("bu3dfe" in name or "human36M" in name or rng.random() < 0.2) else 2
     pts = gen.points(rng, N, d, min_sep=0.001)
 
@@ -504,6 +524,19 @@ def w_labellers(ctx, rng, i):
             return p.copy()
         if kind == "PointCloud":
             return ms.PointCloud(p)
+        # any shape carrying the right number of points is a legitimate input: meshes, trees, graphs
+        if kind == "TriMesh":
+            if p.shape[1] == 2 and len(p) >= 3:
+                return ms.TriMesh(p.copy())                    # (triangulated by the constructor)
+            tl = np.array([[a_, (a_ + 1) % len(p), (a_ + 2) % len(p)] for a_ in range(0, max(1, len(p) - 2), 2)], dtype=int) if len(p) >= 3 else np.zeros((0, 3), dtype=int)
+            return ms.TriMesh(p.copy(), trilist=tl)
+        if kind == "PointTree":
+            if len(p) < 1:
+                return ms.PointCloud(p)
+            e, root = gen.random_tree_edges(rng, len(p))
+            return ms.PointTree(p.copy(), gen.adjacency(len(p), e, False), root)
+        if kind == "PointUndirectedGraph":
+            return ms.PointUndirectedGraph(p.copy(), gen.adjacency(len(p), gen.random_undirected_edges(rng, len(p), 0.1), True))
         return ms.LabelledPointUndirectedGraph(p, gen.adjacency(len(p), gen.random_undirected_edges(rng, len(p), 0.1), True), gen.label_masks(rng, len(p), 3))
     x = wrap(pts)
     dg = digest(x)
@@ -557,7 +590,11 @@ def w_labellers(ctx, rng, i):
         if M == N or M < 0 or (M == 0 and kind == "Labelled"):
             continue
         try:
-            f(wrap(gen.points(rng, M, d, min_sep=0.001)) if M else wrap(np.zeros((0, d))))
+            wrong = wrap(gen.points(rng, M, d, min_sep=0.001)) if M else wrap(np.zeros((0, d)))
+        except Exception:
+            continue          # (no such shape of that class: nothing to hand over)
+        try:
+            f(wrong)
             ctx.fail("labeller_accepted_input_of_the_wrong_size", cls=name, mech="%s:%s" % (kind, "smaller" if M < N else "larger"), given=M, expected=N)
         except LabellingError:
             pass
@@ -567,4 +604,4 @@ def w_labellers(ctx, rng, i):
     ctx.count_case(("labeller", name, kind), nontrivial=True, sample={"labeller": name, "input": kind, "n_in": N, "n_out": int(out.n_points)} if i < 3 else None)
 
 
-WORKLOADS = [Workload("groups", w_groups, quick=500, thorough=15000), Workload("labellers", w_labellers, quick=31 * 3 * 3, thorough=31 * 3 * 40)]
+WORKLOADS = [Workload("groups", w_groups, quick=500, thorough=15000), Workload("labellers", w_labellers, quick=31 * 6 * 2, thorough=31 * 6 * 25)]
